@@ -126,6 +126,9 @@ func ParseSettings(reader io.Reader) (*Settings, error) {
 
 		case settingRegEx.MatchString(line):
 			parts := settingRegEx.FindStringSubmatch(line)
+			if settings == nil {
+				return s, fmt.Errorf("error parsing line %v: setting outside of a section", lineNumber)
+			}
 			settings.Set(parts[1], parts[2])
 
 		default:
